@@ -130,10 +130,7 @@ func (h *Handler) HandleIQ(iq stanza.IQ, t xmlstream.TokenReadEncoder, start *xm
 		if err != nil {
 			return err
 		}
-		err = conn.closeNoNotify(t)
-		if err != nil {
-			return err
-		}
+		conn.closeNoNotify(t)
 		_, err = xmlstream.Copy(t, iq.Result(nil))
 		return err
 	case "data":
